@@ -359,7 +359,12 @@ def execute(sim, plan):
         import re
 
         named = set(re.findall(r"[0-9a-f]{32}", str(e)))
-        site = "dangling-pack-names-entry:duplicate-pack-name" if named & g.dup_names() else "repository-unreadable:" + type(e).__name__
+        if named & g.dup_names():
+            site = "dangling-pack-names-entry:duplicate-pack-name"
+        elif type(e).__name__ == "BadIndexData" and g.dup_names():
+            site = "corrupt-index:duplicate-pack-name"
+        else:
+            site = "repository-unreadable:" + type(e).__name__
         sim.fail("durability", ["durability", "preempt", site], f"fresh process cannot list/read the repository: {type(e).__name__}: {e}\n{traceback.format_exc()[-1500:]}")
     missing = sorted(g.acked - listed)
     if missing:
